@@ -1,5 +1,5 @@
 (* C06 — every owned value is destroyed exactly once, with nothing leaked. *)
-Require Import Verif.common.Prelude Verif.model.Life Verif.proofs.LifeProofs.
+Require Import Verif.common.Prelude Verif.model.Life Verif.proofs.LifeProofs Verif.model.Boxed Verif.proofs.BoxedProofs.
 From Coq Require Import Permutation.
 Open Scope Z_scope.
 
@@ -17,3 +17,22 @@ Theorem C06_prefix : forall ops s, LInv s ->
   let '(s', ds, cr) := lexec s ops in LInv s' /\ Permutation (alive (lpool s) ++ cr) (alive (lpool s') ++ ds).
 Proof. intros ops s I. pose proof (lexec_inv ops s I) as H. destruct (lexec s ops) as [[s' ds] cr]. tauto. Qed.
 Print Assumptions C06_prefix.
+
+(* the runtime boxes themselves (CBox<T>, CSliceBox<T>; typed or opaque): over EVERY finite history of create (from a value, a Box, a boxed
+   slice of any length) / read / write / into_opaque / into_inner / drop, followed by the release of whatever is left, the values handed to
+   boxes are, as a multiset, exactly the values destroyed plus the values handed back to the caller — each exactly once — and no box holds
+   anything at the end *)
+Theorem C06_boxes : forall ops,
+  let '(p, ds, back, cr) := bx_full ops in Permutation cr (ds ++ back) /\ held p = [].
+Proof. exact bx_full_spec. Qed.
+Print Assumptions C06_boxes.
+
+(* at every point of such a history *)
+Theorem C06_boxes_prefix : forall ops p,
+  let '(p', ds, back, cr) := bxexec p ops in Permutation (held p ++ cr) (held p' ++ ds ++ back).
+Proof. exact bxexec_inv. Qed.
+Print Assumptions C06_boxes_prefix.
+
+Example C06_boxes_example :
+  bx_full [XNewSlice [1; 2; 3]; XWrite 0 1 9; XOpaque 0; XNew 5; XIntoInner 2] = ([XDead; XDead; XDead], [2; 1; 9; 3], [5], [1; 2; 3; 9; 5]).
+Proof. vm_compute. reflexivity. Qed.
